@@ -728,12 +728,23 @@ def rand_utt(rng, uid, policy, seg_only=False):
 def rand_dir(rng):
     policy = rng.choice(["fixed", "fixed", "ali", "ref"])
     pad = rng.choice([None, None, "constant", "constant", "reflect", "replicate"])
-    u = rand_utt(rng, "u", policy)
+    utts = [rand_utt(rng, "u", policy)]
+    if rng.random() < 0.25:   # a second utterance: chunks must not leak between utterances
+        w = rand_utt(rng, "w", policy, seg_only=True)
+        u = utts[0]
+        w["F"] = u["F"]
+        if (u.get("ali") is None) != (w.get("ali") is None):
+            w["ali"] = None if u.get("ali") is None else [rng.randrange(3) for _ in w["feat"]]
+        if u.get("ref") is None or "tok" in u["ref"]:
+            w["ref"] = None if u.get("ref") is None else {"tok": [rng.randint(0, 9) for _ in range(rng.randint(0, 3))]}
+        elif w.get("ref") is None:
+            w["ref"] = {"seg": []}
+        utts.append(w)
     if pad == "reflect":
         pad = "constant"   # torch's reflect padding has its own length preconditions (C09)
     return dict(kind="dir", policy=policy, wt=rng.choice(WTS), pad=pad, padc=rng.choice([0, 0, -7, 3]),
                 lobe=rng.choice([0, 0, 1, 1, 2, 3]), partial=rng.random() < 0.3, retain=rng.random() < 0.25,
-                wellformed=True, utts=[u], stream="random-dir")
+                wellformed=True, utts=utts, stream="random-dir")
 
 
 def malformed_cases():
@@ -918,6 +929,7 @@ def run(chk, cases=None, rejections=None):
             chk.count(f"tokens:partial={c['partial']},retain={c['retain']},ref_lens={'omitted' if c['ref_lens'] is None else 'given'}")
         else:
             chk.count("dir:pad=" + str(c["pad"]))
+            chk.count("dir:utts=%d" % len(c["utts"]))
             u = c["utts"][0]
             chk.count("dir:ref=" + ("none" if u.get("ref") is None else "seg" if "seg" in u["ref"] else "tok"))
             if im[0] == "ok":
@@ -992,6 +1004,19 @@ def run(chk, cases=None, rejections=None):
             chk.report({"case": _clean(c), "impl": im, "what": "; ".join(bad[:3]), "variant": V,
                         "theorems_at_stake": THEOREMS[c["kind"]]})
     if (not replaying) if rejections is None else rejections:
+        # token-only (2-D) refs have no known segments: nothing is kept, for every batch element
+        F = _api()
+        for N, R in ((0, 2), (1, 0), (2, 3)):
+            try:
+                ch, ln = F.chunk_token_sequences_by_slices(torch.zeros(N, R, dtype=torch.long), torch.zeros(N, 2, dtype=torch.long))
+                ok = ch.numel() == 0 and ln.shape == (N,) and int(ln.sum()) == 0 and ch.size(0) == N
+                got = None if ok else f"shapes {tuple(ch.shape)} {tuple(ln.shape)}"
+            except Exception as e:
+                got = exc_kind(e)
+            chk.count("tokens-2d=" + ("ok" if got is None else "WRONG"))
+            if got is not None:
+                chk.report({"case": {"kind": "rejection", "name": f"2-D refs N={N} R={R}"}, "impl": got,
+                            "what": "token-only refs must give an empty chunk and length 0 for each batch element: " + got})
         for name, thunk in api_rejections():
             try:
                 with warnings.catch_warnings():
